@@ -27,6 +27,29 @@ add("C03", "E1-explore",
     "Bounded: <=6 seed nodes, all forests <=4 (quick) / <=5 (thorough) nodes, 4 frames, BFS depth 2-3. networkx/numpy trusted.",
     MC, "DESIGN.md 4 C03")
 
+E1NOTE = "Bounded: 6 hand seeds (<=6 nodes) + all labelled forests <=4 (quick) / <=5 (thorough) nodes, 4 frames, 4x6 pixel frames, BFS depth 2-3 (noseg) / 1-2 (seg). networkx/numpy/skimage trusted."
+
+add("C01", "E1-explore",
+    "Every accepted (state, edit) pair of the bounded state space is followed by undo -> redo -> undo on the same real object; after each step the observable state (nodes, edges, every registered node/edge feature incl. custom ones, array bytes) must equal the recorded pre / post state exactly. Worlds: with/without segmentation, 2D/3D, per-axis positions, pre-built FeatureDict, given non-contiguous ids, all regionprops features.",
+    E1NOTE + " History route (tracks.undo/redo) is used, which calls action.inverse() / inverse().inverse() on the stored action objects.",
+    MC, "DESIGN.md 4 C01")
+add("C04", "E1-explore",
+    "On every state reachable in the bounded space and after every undo/redo the partition induced by track ids is compared with an independent recomputation of maximal unbranched segments; on every transition the frame clause (ids in untouched components unchanged) is checked; the constructor clause is checked on every forest seed.",
+    E1NOTE, MC, "DESIGN.md 4 C04")
+add("C05", "E1-explore",
+    "Same exploration as C04 with the lineage partition compared with weakly connected components (independent networkx undirected recomputation) and the lineage frame clause on every transition.",
+    E1NOTE, MC, "DESIGN.md 4 C05")
+add("C06", "E1-explore",
+    "On every reachable state and after every undo/redo: both lookups vs a scan of the graph (keys, no empty/duplicate/stale entries), freshness of next track/lineage/node ids, and get_track_neighbors / has_track_id_at_time for every used and unused id and every t in -1..T vs a linear scan.",
+    E1NOTE, MC, "DESIGN.md 4 C06")
+add("C11", "E1-explore",
+    "Every (state, event) pair of the bounded space whose call raises - the alphabet deliberately contains refusal inputs (missing time/track id/position, existing id, unknown node/edge, merge / third child / non-forward without force, forced edits whose later step fails, protected attributes, bad swaps, paint with a refused nested add) - is followed by a comparison of the full snapshot (graph, raw attributes, array, lookups, counters, registry, both history stacks structurally) with the one taken before the call, and by a check that no refresh was emitted.",
+    E1NOTE + " For paint the driver restores the painted pixels first (the property's proviso).",
+    MC, "DESIGN.md 4 C11")
+add("C20", "E1-explore",
+    "A counting callback on tracks.refresh is read around every call in the bounded space: accepted top-level action / successful undo / redo = exactly one emission (payload = new node for add-node and node-creating paint), refused action = none. Nested composite actions are covered through forced add-edge/add-node, swap and paint events.",
+    E1NOTE, MC, "DESIGN.md 4 C20")
+
 NOT_APPLICABLE = {}
 
 PENDING_REASON = "check not built yet in this round (planned, see DESIGN.md section 4); not claimed until its command exists"
